@@ -79,9 +79,21 @@ ASSUMPTIONS = [
     "partitions are what dask.compute(*r.to_delayed()) / r.partitions[i] return; sync scheduler; pyarrow import stub",
 ]
 BUDGET = {"quick": 75, "thorough": 560}
+_QF = {"shuffles_checked": 250, "shuffle_key_sets_checked": 240, "shuffle_partitions_observed": 1100,
+       "multi_stage_task_shuffles": 35, "shuffles_with_na_keys": 110, "shuffles_spreading_over_partitions": 200,
+       "shuffle_method_disk": 120, "shuffle_method_tasks": 130, "shuffles_changing_npartitions": 170,
+       "sorts_checked": 230, "sorts_with_na_keys": 110, "sorts_multi_column": 140, "sorts_with_several_output_partitions": 150,
+       "set_index_checked": 240, "set_index_divisions": 75, "set_index_npartitions": 40, "set_index_sorted": 25,
+       "set_index_with_several_output_partitions": 180, "drop_duplicates_checked": 170, "drop_duplicates_with_duplicates": 110,
+       "survivor_checked": 110, "dedup_after_shuffle_with_one_shuffle_layers": 40, "nunique_checked": 50, "unique_checked": 30,
+       "compute_views": 200, "side_divisions_monitor_runs": 200, "inputs_unknown_divisions": 550}
 FLOORS = {
-    "quick": {"evaluations": 1, "distinct_nontrivial": 1},
-    "thorough": {"evaluations": 1, "distinct_nontrivial": 1},
+    "quick": {"evaluations": 1100, "distinct_nontrivial": 850, "counters": dict(_QF),
+              "sets": {"shuffle_feature": 120, "sort_feature": 90, "dedup_feature": 70, "set_index_feature": 15},
+              "max_skipped_fraction": 0.2},
+    "thorough": {"evaluations": 10000, "distinct_nontrivial": 8000, "counters": {k: 9 * v for k, v in _QF.items()},
+                 "sets": {"shuffle_feature": 300, "sort_feature": 250, "dedup_feature": 150, "set_index_feature": 25},
+                 "max_skipped_fraction": 0.2},
 }
 EXHAUSTIVE_SPACE = None
 CLAIM = ("For every generated shuffle the key sets of all output partitions were pairwise disjoint and the rows were the "
@@ -109,6 +121,9 @@ PENDING = {
     "sort_values:first-key=float&na&all-NA-input-partition:graph:key-order":
         "an input partition holding only NaN puts NaN into the quantile divisions: rows below the first finite division land "
         "in the last partition (wrong global order)",
+    "sort_values:first-key=float&na&all-NA-column:IndexError@dataframe/partitionquantiles.py:process_val_weights":
+        "float key column without a single valid value (e.g. one NaN row plus empty partitions): IndexError while "
+        "computing quantile divisions",
     "sort_values:first-key=Int64&na&all-NA-input-partition:TypeError@dataframe/partitionquantiles.py:merge_and_compress_summaries":
         "nullable Int64 key with an all-NA input partition: 'boolean value of NA is ambiguous' while merging percentile summaries",
     "sort_values:first-key=boolean&na:TypeError@dataframe/partitionquantiles.py:merge_and_compress_summaries":
@@ -176,7 +191,7 @@ def _shuffle_kw(rng):
 
 def cases(tier, seed):
     rng = random.Random(seed * 40503 % (2 ** 31) + 40)
-    n = 2400 if tier == "quick" else 36000
+    n = 2400 if tier == "quick" else 24000
     for i in range(n):
         c = _base(rng)
         op = ("shuffle", "sort", "set_index", "dedup")[i % 4]
@@ -381,8 +396,10 @@ def _all_na_partition(ddf, col):
     """input-feature predicate: some non-empty input partition holds only NA in ``col``"""
     import dask
 
-    pieces = dask.compute(*ddf[col].to_delayed(), scheduler="sync")
-    return "&all-NA-input-partition" if any(len(s) and bool(s.isna().all()) for s in pieces) else ""
+    pieces = [s for s in dask.compute(*ddf[col].to_delayed(), scheduler="sync") if len(s)]
+    if pieces and all(bool(s.isna().all()) for s in pieces):
+        return "&all-NA-column"
+    return "&all-NA-input-partition" if any(bool(s.isna().all()) for s in pieces) else ""
 
 
 def _presorted_ignoring_na(ddf, col, ascending=True):
@@ -548,6 +565,8 @@ def _sort(case, ctx, pdf, ddf):
     # key with na_position="first", are mechanisms of their own (whatever the direction / dtype)
     k0 = _colkind(pdf[by[0]])
     allna = _all_na_partition(ddf, by[0]) if na0 else ""       # quantile summaries of all-NA partitions are a mechanism
+    if allna == "&all-NA-column" and k0 != "float":            # (own symptom only for float keys)
+        allna = "&all-NA-input-partition"
     pres = _presorted_ignoring_na(ddf, by[0], asc0) if na0 and not allna else ""   # the presorted shortcut skips NA
     if allna:
         ctx.count("sorts_with_all_na_input_partition")
@@ -653,6 +672,8 @@ def _set_index(case, ctx, pdf, ddf):
         return
     ck = _colkind(pdf[col])
     allna = _all_na_partition(ddf, col) if hasna else ""
+    if allna == "&all-NA-column" and ck != "float":
+        allna = "&all-NA-input-partition"
     if allna:
         ctx.count("set_index_with_all_na_input_partition")
     if "not-in-lexical-order" in ck and mode == "divisions":
@@ -663,14 +684,14 @@ def _set_index(case, ctx, pdf, ddf):
     if pres:
         ctx.count("set_index_presorted_by_non_na_values")
     if "not-in-lexical-order" in ck and mode != "sorted":
-        feat = efeat = "set_index:%s-column" % ck          # one mechanism whatever the mode
+        feat = "set_index:%s-column" % ck          # one mechanism whatever the mode
     else:
         fmode = "quantile-divisions" if (allna or pres) and mode in ("plain", "npartitions") else mode
         feat = "set_index:%s:%s-column%s%s%s" % (fmode, ck, "&na-values" if hasna else "", allna, pres)
-        emode = "quantile-divisions" if hasna and mode in ("plain", "npartitions") else mode
-        efeat = "set_index:%s%s" % (emode, "&%s-column&na-values%s" % (ck, allna) if hasna else
-                                    "&category-column" if ck.startswith("category") and mode == "sorted" else
-                                    "&bool-column" if ck == "bool" and mode == "sorted" else "")
+    emode = "quantile-divisions" if hasna and mode in ("plain", "npartitions") else mode
+    efeat = "set_index:%s%s" % (emode, "&%s-column&na-values%s" % (ck, allna) if hasna else
+                                "&category-column" if ck.startswith("category") and mode == "sorted" else
+                                "&bool-column" if ck == "bool" and mode == "sorted" else "")
     refine = None
     desc = dict(case, input_npartitions=ddf.npartitions, kwargs={k: str(v)[:120] for k, v in kw.items()})
     r_ok, r = _guard(ctx, efeat, lambda: ddf.set_index(col, **kw), desc, refine)
